@@ -631,6 +631,9 @@ def run(ctx):
     rule_progress(ctx, tu, eff)
     rule_type_ptr(ctx, tu)
     ctx.analysed["engine"] = tu.meta
+    # a set-up leaves the caller's script as it found it: the next set-up made with that script starts from the same input
+    from . import c08
+    c08.rule_py_pure(ctx, ctx.py, "C10.PY-PURE")
     from .. import lints
     lints.run(ctx, "C10", ctx.py, ["librdengine"])
     ctx.assume("completion after ceil(t_max/dt) steps and absence of hangs in general are value-level and not "
